@@ -165,12 +165,16 @@ impl Output {
                         // error if the file is currently being executed.
                         let renamed_old_file = path.with_extension("delete");
                         let rename_status = std::fs::rename(&path, &renamed_old_file);
+                        #[cfg(feature = "verif")]
+                        crate::verif::phase::point("creator:after-rename");
 
                         // If there was an old output file that we renamed, then delete it. We do so
                         // from a separate task so that it can run in the background while other
                         // threads continue working. Deleting can take a while for large files.
                         if rename_status.is_ok() {
                             rayon::spawn(move || {
+                                #[cfg(feature = "verif")]
+                                crate::verif::phase::point("creator:before-remove-old");
                                 let _ = std::fs::remove_file(renamed_old_file);
                                 // Note, we don't currently signal when we've finished deleting the
                                 // file. Based on experiments run on Linux 6.9.3, if we exit while
@@ -183,6 +187,8 @@ impl Output {
 
                     // Create the output file.
                     let sized_output = SizedOutput::new(path, output_config, size);
+                    #[cfg(feature = "verif")]
+                    crate::verif::phase::point("creator:after-create");
 
                     // Pass it to the main thread, so that it can start writing it once layout
                     // finishes.
